@@ -6,6 +6,7 @@ README ("Parsing Expressions") and the property statements; it never looks at na
 temporaries, only at provenance of values.
 """
 import ast
+import re
 
 from .common import Finding, AnalysisError, Unsupported
 from . import flow as F
@@ -301,6 +302,126 @@ def g5_local_stores(built, an):
             if isinstance(r, ast.Name) and r.id not in local:
                 out.append(mk('G5-local-stores', built, f'emitted code mutates `{ast.unparse(n.func.value)}`, '
                                                          f'which is not a local of the rule function'))
+    return out
+
+
+# ---- G6: temporaries that are live across a sub-expression are unique per instance
+def _loads(node):
+    return {n.id for n in ast.walk(node) if isinstance(n, ast.Name) and isinstance(n.ctx, ast.Load)}
+
+
+def _stores(node):
+    return {n.id for n in ast.walk(node) if isinstance(n, ast.Name) and isinstance(n.ctx, ast.Store)}
+
+
+def _is_child_call(st):
+    """the statement runs a sub-expression: a child placeholder or a request to the driver"""
+    for n in ast.walk(st):
+        if isinstance(n, ast.Call) and isinstance(n.func, ast.Name) and n.func.id == '__CHILD__':
+            return True
+        if isinstance(n, (ast.Yield, ast.YieldFrom)):
+            return True
+    return False
+
+
+def live_across_children(tree):
+    """structured backward liveness over the skeleton; -> {name: statement} for every name that is
+    live after a statement that runs a sub-expression and is not defined by that statement"""
+    across = {}
+
+    def block(stmts, out, brk, cont):
+        live = set(out)
+        for st in reversed(stmts):
+            live = stmt(st, live, brk, cont)
+        return live
+
+    def stmt(st, out, brk, cont):
+        if isinstance(st, ast.If):
+            return _loads(st.test) | block(st.body, out, brk, cont) | block(st.orelse, out, brk, cont)
+        if isinstance(st, (ast.While, ast.For)):
+            head = set(out)
+            always = isinstance(st, ast.While) and isinstance(st.test, ast.Constant) and bool(st.test.value)
+            for _ in range(50):
+                body_in = block(st.body, head, set(out), head)
+                if isinstance(st, ast.For):
+                    new = (body_in - _stores(st.target)) | _loads(st.iter) | set(out)
+                else:
+                    new = body_in | _loads(st.test) | (set() if always else set(out))
+                new |= block(st.orelse, out, brk, cont) if st.orelse else set()
+                if new == head:
+                    break
+                head = new
+            return head
+        if isinstance(st, ast.Break):
+            return set(brk)
+        if isinstance(st, ast.Continue):
+            return set(cont)
+        if isinstance(st, (ast.Return, ast.Raise)):
+            return _loads(st)
+        if isinstance(st, ast.Try):
+            inner = block(st.body + st.orelse + st.finalbody, out, brk, cont)
+            for h in st.handlers:
+                inner |= block(h.body, out, brk, cont)
+            return inner
+        if isinstance(st, ast.With):
+            return block(st.body, out, brk, cont) | set().union(*[_loads(i.context_expr) for i in st.items])
+        if isinstance(st, (ast.FunctionDef, ast.ClassDef)):
+            return (set(out) - {st.name}) | (_loads(st) - _stores(st))
+        # simple statement
+        defs = set()
+        if isinstance(st, ast.Assign):
+            for t in st.targets:
+                if isinstance(t, ast.Name):
+                    defs.add(t.id)
+                elif isinstance(t, (ast.Tuple, ast.List)) and all(isinstance(e, ast.Name) for e in t.elts):
+                    defs |= {e.id for e in t.elts}
+        if _is_child_call(st):
+            for n in set(out) - defs:
+                across.setdefault(n, st)
+        return (set(out) - defs) | _loads(st)
+
+    block(tree.body, set(), set(), set())
+    return across
+
+
+REGISTERS = {'_status', '_result', '_pos', '_text', '_ctx', '_super_ctx'}
+
+
+def g6_temp_unique(built, an):
+    """A local of the emitted code whose value must survive a sub-expression (assigned before the
+    child runs, read after it) is either a register, a name the user chose, or a temporary numbered
+    by the builder (`out.var`): the sub-expression may contain another instance of the same class,
+    compiled into the same function, and a fixed scratch name would be overwritten by it."""
+    out = []
+    tree = built.tree
+    if tree is None:
+        return out
+    assigned = _stores(tree)
+    user = set()
+
+    def strings(x):
+        if isinstance(x, str):
+            user.add(x)
+        elif isinstance(x, (list, tuple, set)):
+            for y in x:
+                strings(y)
+        elif isinstance(x, dict):
+            for y in x.values():
+                strings(y)
+    strings(built.cfg.args)
+    strings(built.cfg.kwargs)
+    strings(built.cfg.post)
+    counters = dict(getattr(getattr(built, 'out', None), '_names', {}) or {})
+    for name, st in sorted(live_across_children(tree).items()):
+        if name not in assigned or name in REGISTERS or name in user:
+            continue
+        m = re.match(r'^(.*?)(\d+)$', name)
+        if m and 1 <= int(m.group(2)) <= counters.get(m.group(1), 0):
+            continue                        # numbered by the builder: unique per instance
+        out.append(mk('G6-temp-unique', built,
+                      f'the scratch name `{name}` is live across a sub-expression (`{ast.unparse(st)[:60]}`) but is '
+                      f'not numbered by the builder: another {built.cfg.cls} nested inside that sub-expression is '
+                      f'compiled into the same function and overwrites it'))
     return out
 
 
